@@ -6,11 +6,15 @@
 package main
 
 import (
+	"context"
 	"fmt"
 	"net/http"
 	"net/http/httptest"
+	"runtime"
+	"sort"
 	"strconv"
 	"strings"
+	"sync"
 	"time"
 
 	"rivaas.dev/app"
@@ -67,7 +71,19 @@ type caseT struct {
 	C cfgT
 	R []routeT
 	Q reqT
+	// Conc != nil: the observation was made while G goroutines fired the requests Qs (N each) at ONE router
+	// concurrently; Q = Qs[Idx]. The oracle is the ordinary per-request one.
+	Conc *concT `json:",omitempty"`
 }
+
+type concT struct {
+	G   int
+	N   int
+	Qs  []reqT
+	Idx int
+}
+
+type obsKeyT struct{}
 
 type obsT struct {
 	panicked bool
@@ -88,7 +104,7 @@ func (l lcT) time() time.Time {
 func custHeader(n int) string { return "X-Cust-" + strconv.Itoa(n) }
 
 // build constructs the real router; err != nil means the configuration was rejected.
-func build(k caseT, o *obsT) (r *router.Router, err error) {
+func build(k caseT) (r *router.Router, err error) {
 	var vo []version.Option
 	for _, op := range k.C.Opts {
 		switch op.K {
@@ -153,8 +169,10 @@ func build(k caseT, o *obsT) (r *router.Router, err error) {
 	for _, rt := range k.R {
 		rt := rt
 		h := func(c *router.Context) {
-			o.ran = append(o.ran, rt)
-			o.version = c.Version()
+			if o, ok := c.Request.Context().Value(obsKeyT{}).(*obsT); ok { // per request: handlers are shared
+				o.ran = append(o.ran, rt)
+				o.version = c.Version()
+			}
 			_ = c.String(http.StatusOK, "ok")
 		}
 		ah := func(c *app.Context) { h(c.Context) }
@@ -193,11 +211,10 @@ func mkReq(q reqT) *http.Request {
 	return req
 }
 
-func observe(k caseT) (o obsT, cfgErr error) {
-	r, err := build(k, &o)
-	if err != nil {
-		return o, err
-	}
+// serveOne runs one request on the router and returns what was observed for THAT request.
+func serveOne(r *router.Router, q reqT) (o obsT) {
+	req := mkReq(q)
+	req = req.WithContext(context.WithValue(req.Context(), obsKeyT{}, &o))
 	rec := httptest.NewRecorder()
 	func() {
 		defer func() {
@@ -205,11 +222,101 @@ func observe(k caseT) (o obsT, cfgErr error) {
 				o.panicked = true
 			}
 		}()
-		r.ServeHTTP(rec, mkReq(k.Q))
+		r.ServeHTTP(rec, req)
 	}()
 	o.status = rec.Code
 	o.hdr = rec.Header()
-	return o, nil
+	return o
+}
+
+func observe(k caseT) (o obsT, cfgErr error) {
+	r, err := build(k)
+	if err != nil {
+		return o, err
+	}
+	return serveOne(r, k.Q), nil
+}
+
+func (o obsT) key() string {
+	var b strings.Builder
+	fmt.Fprintf(&b, "%v|%d|%d|%s", o.panicked, o.status, len(o.ran), o.version)
+	for _, rt := range o.ran {
+		fmt.Fprintf(&b, "|%v:%s:%s:%s", rt.Versioned, rt.Ver, rt.Method, rt.Path)
+	}
+	for _, h := range []string{"X-API-Version", "Deprecation", "Sunset", "Link", "Warning"} {
+		b.WriteString("|" + strings.Join(o.hdr.Values(h), "\x00"))
+	}
+	return b.String()
+}
+
+// runConc: G goroutines fire the requests qs (N each, rotating) at one router at the same time; returns one
+// case line per distinct (request, observation) pair — on a correct router exactly one per request.
+func runConc(idPrefix string, k caseT, qs []reqT, G, N int, only int, st *hx.Stats) []string {
+	r, err := build(k)
+	if err != nil {
+		return nil
+	}
+	type seenT struct {
+		o obsT
+		n int
+	}
+	perG := make([]map[string]*seenT, G)
+	var wg sync.WaitGroup
+	start := make(chan struct{})
+	for g := 0; g < G; g++ {
+		perG[g] = map[string]*seenT{}
+		wg.Add(1)
+		go func(g int) {
+			defer wg.Done()
+			<-start
+			for i := 0; i < N; i++ {
+				idx := (g + i) % len(qs)
+				o := serveOne(r, qs[idx])
+				key := strconv.Itoa(idx) + "#" + o.key()
+				if e := perG[g][key]; e != nil {
+					e.n++
+				} else {
+					perG[g][key] = &seenT{o: o, n: 1}
+				}
+			}
+		}(g)
+	}
+	close(start)
+	wg.Wait()
+	merged := map[string]*seenT{}
+	for _, m := range perG {
+		for key, e := range m {
+			if x := merged[key]; x != nil {
+				x.n += e.n
+			} else {
+				merged[key] = e
+			}
+		}
+	}
+	keys := make([]string, 0, len(merged))
+	for key := range merged {
+		keys = append(keys, key)
+	}
+	sort.Strings(keys)
+	var out []string
+	for j, key := range keys {
+		idx, _ := strconv.Atoi(key[:strings.IndexByte(key, '#')])
+		if only >= 0 && idx != only {
+			continue
+		}
+		kk := k
+		kk.Q = qs[idx]
+		kk.Conc = &concT{G: G, N: N, Qs: qs, Idx: idx}
+		out = append(out, emitObs(fmt.Sprintf("%s-%d-%d", idPrefix, idx, j), kk, merged[key].o, st))
+		if st != nil {
+			st.Count("concurrent_distinct_observations")
+		}
+	}
+	if st != nil {
+		st.Count("concurrent_batches")
+		st.Counters["concurrent_requests"] += G * N
+	}
+	return out
 }
 
 func optHdr(l *hx.Line, h http.Header, name string) {
@@ -233,6 +340,11 @@ func emit(id string, k caseT, st *hx.Stats) (string, bool) {
 		}
 		return "", false
 	}
+	return emitObs(id, k, o, st), true
+}
+
+// emitObs renders the case line for an observation already made.
+func emitObs(id string, k caseT, o obsT, st *hx.Stats) string {
 	req := mkReq(k.Q)
 	l := hx.NewLine(id)
 	l.Nat(len(k.C.Opts))
@@ -376,7 +488,7 @@ func emit(id string, k caseT, st *hx.Stats) (string, bool) {
 			st.Count("registered_through_app")
 		}
 	}
-	return l.String() + hx.Comment(k), true
+	return l.String() + hx.Comment(k)
 }
 
 func contains(xs []string, s string) bool {
@@ -710,8 +822,15 @@ func genCase(r *hx.Rand) caseT {
 		}
 	}
 	k.R = dedupRoutes(k.R)
-	// request
-	q := &k.Q
+	k.Q = genReq(r, &k)
+	return k
+}
+
+// genReq generates one request for the configuration and routes of k.
+func genReq(r *hx.Rand, k *caseT) reqT {
+	c := &k.C
+	var qq reqT
+	q := &qq
 	q.Method = "GET"
 	base := hx.Pick(r, routePaths)
 	if len(k.R) > 0 && r.Chance(7, 8) {
@@ -749,7 +868,71 @@ func genCase(r *hx.Rand) caseT {
 			q.Hdr = append(q.Hdr, [2]string{"Accept", strings.TrimSpace(genAccept(r, c))})
 		}
 	}
-	return k
+	return qq
+}
+
+// concBatches: concurrent-request batches. The first mirrors the documented use (Accept pattern, v1..v3, one
+// path in every version tree); the others take a generated configuration that has an Accept option and 4-6
+// generated requests for it.
+func concBatches(seed uint64, r *hx.Rand, n int, st *hx.Stats, w func(string)) {
+	G := min(max(runtime.GOMAXPROCS(0), 2), 8)
+	demo := caseT{
+		C: cfgT{Opts: []optT{{K: "A", A: "application/vnd.demo.{version}+json"}, {K: "H", A: "X-API-Version"}, {K: "Q", A: "v"}},
+			Default: "v1", Valid: []string{"v1", "v2", "v3"}, SendVH: true, Now: 1750000000, LCs: []lcT{{Ver: "v2", Deprecated: true}}},
+	}
+	var qs []reqT
+	for _, v := range []string{"v1", "v2", "v3"} {
+		demo.R = append(demo.R, routeT{Versioned: true, Ver: v, Method: "GET", Path: "/users"})
+		qs = append(qs, reqT{Method: "GET", Path: "/users", Hdr: [][2]string{{"Accept", "text/html;q=0.1, application/vnd.demo." + v + "+json"}}})
+	}
+	qs = append(qs, reqT{Method: "GET", Path: "/users", Hdr: [][2]string{{"X-API-Version", "v3"}}},
+		reqT{Method: "GET", Path: "/users", RawQuery: "v=v2", Hdr: [][2]string{}})
+	for _, l := range runConc(fmt.Sprintf("c13c-%d-0", seed), demo, qs, G, 600, -1, st) {
+		w(l)
+	}
+	for b := 1; b <= n; b++ {
+		var k caseT
+		for try := 0; try < 50; try++ {
+			k = genCase(r)
+			hasA := false
+			for _, op := range k.C.Opts {
+				if op.K == "A" {
+					hasA = true
+				}
+			}
+			if hasA && len(k.R) > 0 && !k.C.ViaApp {
+				break
+			}
+		}
+		var vs []reqT
+		for i := 0; i < r.Range(4, 6); i++ {
+			q := genReq(r, &k)
+			if len(k.C.vers) > 0 { // make sure the Accept header carries a version that has routes
+				pat := ""
+				for _, op := range k.C.Opts {
+					if op.K == "A" {
+						pat = op.A
+					}
+				}
+				v := k.C.vers[i%len(k.C.vers)]
+				if strings.Contains(pat, "v{version}") {
+					v = strings.TrimPrefix(v, "v")
+				}
+				q.Hdr = append([][2]string{}, q.Hdr...)
+				kept := q.Hdr[:0]
+				for _, h := range q.Hdr {
+					if h[0] != "Accept" {
+						kept = append(kept, h)
+					}
+				}
+				q.Hdr = append(kept, [2]string{"Accept", strings.Replace(pat, "{version}", v, 1)})
+			}
+			vs = append(vs, q)
+		}
+		for _, l := range runConc(fmt.Sprintf("c13c-%d-%d", seed, b), k, vs, G, 300, -1, st) {
+			w(l)
+		}
+	}
 }
 
 // the router panics on a duplicate (tree, method, path); keep the first
@@ -823,6 +1006,11 @@ func main() {
 				fmt.Fprintln(w, line)
 			}
 		}
+		nb := 6
+		if a.Tier == "thorough" {
+			nb = 40
+		}
+		concBatches(a.Seed, r, nb, st, func(l string) { fmt.Fprintln(w, l) })
 		st.Emit(w)
 	case "replay":
 		for _, line := range hx.StdinLines() {
@@ -830,6 +1018,12 @@ func main() {
 			id, err := hx.CaseFromComment(line, &k)
 			if err != nil {
 				fmt.Fprintf(w, "# cannot replay %q: %v\n", id, err)
+				continue
+			}
+			if k.Conc != nil { // re-run the concurrent batch, report what request Idx was answered
+				for _, l := range runConc(id, k, k.Conc.Qs, k.Conc.G, k.Conc.N, k.Conc.Idx, nil) {
+					fmt.Fprintln(w, l)
+				}
 				continue
 			}
 			if out, ok := emit(id, k, nil); ok {
